@@ -8,6 +8,10 @@ NOTE = ("Trusted base: Coq 8.16.1 kernel; no axioms (Print Assumptions closed); 
         "hand-written Gallina model tied to /repo by a differential correspondence check (Rust harness with cfg plonk_verif hooks vs model extracted "
         "with ExtrOcamlBasic+ExtrOcamlZBigInt); the Rust code is modelled, not verified.")
 CLAIMED = {
+ "C09": dict(
+   text="Theorem C09_range_sound: for every width 0..254 (even or odd), every wire and every assignment of the gadget's accumulators, satisfaction of the emitted rows forces the canonical value below 2^width (induction along the flattened quad chain, no wrap below 2^254 < r), also inside any larger satisfied system; entry points proved to emit identical gates (clamp above 128 pairs). The layout the theorem speaks about is compared with the real Composer for every width 0..=256 / pairs 0..=130 on every run, the range widget's three coded forms are compared with the model formula, and every real snapshot is evaluated by the proved row evaluator against the expected verdict (completeness direction and adversarial accumulator templates).",
+   technique="Coq proof (induction over the quad chain) + exhaustive-width differential correspondence (L3) + widget formula tie (L1) + evaluator-based exactness probe",
+   design="5/C09"),
  "C08": dict(
    text="Machine-checked theorems (Props/C08.v) state, for every selector tuple, wiring and assignment, the exact relation each arithmetic/equality/boolean/selection component enforces, uniqueness of returned witnesses, completeness of honest values and locality of arithmetic blocks inside any satisfied system; the Gallina composer model they are about is compared on every run with the real Composer (gates, public-input rows, witness values) on generated programs, and the real snapshots are probed with perturbed assignments evaluated by the proved-sound row evaluator.",
    technique="Coq proof over a Gallina model of the composer + differential correspondence (L3 snapshot tie) + exactness probe on real layouts",
